@@ -421,6 +421,10 @@ pub enum Form {
     NegLitParen,
     /// `-(-N)` with the literal N = v (v >= 0)
     DoubleNeg,
+    /// a user constant named `MAX` / `MIN` – names generated code might use itself: macro hygiene, an item
+    /// or binding the expansion introduces must not capture the user's identifier
+    ShadowMax,
+    ShadowMin,
 }
 
 #[derive(Clone, Debug, PartialEq, Eq, Hash)]
